@@ -2,35 +2,245 @@
 
 kani entries: (harness file, harness fn, bound label).  A label starting with 'complete' marks a
 loop-free / full-domain harness counted as a discharged obligation; anything else is a bounded
-stand-in and is reported under coverage.bounded_checks only.
+stand-in and is reported under coverage.bounded_checks only (never added to `discharged`).
 """
 
 COMMON_TRUST = [
     'Verus 0.2026.09.13 + Z3 (SMT encoding, trigger-based quantifier instantiation)',
     'Kani 0.68 / CBMC 6.11 / CaDiCaL (bit-precise symbolic execution of the MIR of the real crate)',
-    'vlib/extract.py: functions are cut verbatim from /repo on every run; rewrites are logged under coverage.rewrites_applied',
-    'rustc semantics of the extracted text inside verus! equal its semantics in the crate (same text, stub dependency types)',
+    'vlib/extract.py + vlib/unit.py: functions are cut verbatim from /repo on every run; every rewrite is logged under coverage.rewrites_applied, every ghost insertion under coverage.ghost_insertions',
+    'rustc semantics of the extracted text inside verus! equal its semantics in the crate (same text, contract-only stubs for dependency types, trait-impl methods lifted into inherent impls)',
+    'global layout usize is size == 8 (64-bit target)',
 ]
+
+HASH_TRUST = 'verus/prelude/hashing.rs: std::hash modelled as ONE uninterpreted function of (BuildHasher identity, words written) -- the crate\'s documented "BuildHasher must be stable" requirement; `B: Eq` equality is taken to be structural'
+INTVEC_TRUST = 'verus/prelude/intvector.rs: contract-only stub of succinct::IntVector (get/set/len/with_fill/block_with_fill/clone), cross-checked against the real crate by kani harness intvector_stub_set_get (bounded)'
+FBS_TRUST = 'verus/prelude/fixedbitset.rs: contract-only stub of fixedbitset::FixedBitSet (put/set/index/clear/ones/bitor/with_capacity), cross-checked by the bloom kani harnesses (bounded)'
+PANIC_ASSERTS = 'panicking `assert!/assert_eq!` parameter checks at the top of constructors/union/merge are turned into `requires` (logged rewrite): loosening such a check is not detected by the Verus layer'
+
+QF_QUICK = [
+    ('filters__quotientfilter.rs', 'c13_qf_insert_b1r1_f%d' % f, 'bounded(2 slots, 1-bit remainders; all 16 fingerprint sets x this fingerprint)') for f in range(4)
+] + [
+    ('filters__quotientfilter.rs', 'c13_qf_new_is_empty_layout', 'bounded(4 slots)'),
+]
+QF_QR = [
+    ('filters__quotientfilter.rs', 'c13_qf_quotient_remainder_b2r1', 'complete over all 64-bit hashes for (bq,br)=(2,1); loop-free'),
+    ('filters__quotientfilter.rs', 'c13_qf_quotient_remainder_b3r5', 'complete over all 64-bit hashes for (bq,br)=(3,5); loop-free'),
+    ('filters__quotientfilter.rs', 'c13_qf_quotient_remainder_b1r63', 'complete over all 64-bit hashes for (bq,br)=(1,63); loop-free'),
+    ('filters__quotientfilter.rs', 'c13_qf_quotient_remainder_b4r60', 'complete over all 64-bit hashes for (bq,br)=(4,60); loop-free'),
+]
+QF_THOROUGH = [
+    ('filters__quotientfilter.rs', 'c13_qf_insert_b1r2_f%d' % f, 'bounded(2 slots, 2-bit remainders; all 256 fingerprint sets x this fingerprint)') for f in (0, 3, 5, 6)
+] + [
+    ('filters__quotientfilter.rs', 'c13_qf_insert_b2r1_f%d' % f, 'bounded(4 slots, 1-bit remainders; all 256 fingerprint sets x this fingerprint)') for f in range(8)
+]
+QF_UNION_QUICK = [('filters__quotientfilter.rs', 'c06_qf_union_b1r1', 'bounded(2 slots, 1-bit remainders; all pairs of sets)')]
+QF_UNION_THOROUGH = [('filters__quotientfilter.rs', 'c06_qf_union_b1r2', 'bounded(2 slots, 2-bit remainders; all pairs of sets)'),
+                     ('filters__quotientfilter.rs', 'c06_qf_union_b2r1', 'bounded(4 slots, 1-bit remainders; all pairs of sets)')]
+
+BLOOM_K = [('filters__bloomfilter.rs', 'c01_bloom_insert_query_step', 'bounded(m=7, k=2, 3 keys; every hash function, arbitrary bit array)'),
+           ('filters__bloomfilter.rs', 'c06_bloom_union_clear_step', 'bounded(m=7, k=2; arbitrary bit arrays)')]
+CUCKOO_K = [('filters__cuckoofilter.rs', 'c14_cuckoo_delete_query_step', 'bounded(2 buckets x 2 slots, 2-bit fingerprints, 3 keys; every hash function, arbitrary table)'),
+            ('filters__cuckoofilter.rs', 'c12_cuckoo_restore_state_reverse_order', 'bounded(log <= 3; 2x2 table)')]
+
+CMS_ADD_QUICK = [('countminsketch.rs', 'c02_cms_add_u8_1x1', 'bounded((w,d)=(1,1), u8, 3 keys; every hash function, arbitrary table)'),
+                 ('countminsketch.rs', 'c02_cms_add_u8_2x3', 'bounded((w,d)=(2,3), u8)'),
+                 ('countminsketch.rs', 'c02_cms_add_u16_2x2', 'bounded((w,d)=(2,2), u16)'),
+                 ('countminsketch.rs', 'c02_cms_add_usize_4x1', 'bounded((w,d)=(4,1), usize)'),
+                 ('countminsketch.rs', 'c02_cms_add_usize_1x4', 'bounded((w,d)=(1,4), usize)'),
+                 ('countminsketch.rs', 'c02_cms_add_is_add_one', 'bounded((w,d)=(2,2), u8)')]
+CMS_ADD_THOROUGH = [('countminsketch.rs', 'c02_cms_add_u8_3x2', 'bounded((w,d)=(3,2), u8)'),
+                    ('countminsketch.rs', 'c02_cms_add_u32_3x2', 'bounded((w,d)=(3,2), u32)'),
+                    ('countminsketch.rs', 'c02_cms_add_u64_2x3', 'bounded((w,d)=(2,3), u64)')]
+CMS_MERGE = [('countminsketch.rs', 'c06_cms_merge_u8_2x3', 'bounded((w,d)=(2,3), u8; arbitrary tables)'),
+             ('countminsketch.rs', 'c06_cms_merge_u64_3x2', 'bounded((w,d)=(3,2), u64; arbitrary tables)')]
+CMS_EMPTY = [('countminsketch.rs', 'c19_cms_is_empty_exact', 'bounded((w,d)=(3,2), u8; arbitrary table)')]
+
+HLL_K = [('hyperloglog__mod.rs', 'c17_hll_add_hashed_b4', 'complete for b=4: all 64-bit hashes, all 16 registers arbitrary'),
+         ('hyperloglog__mod.rs', 'c17_hll_add_hashed_b5', 'bounded(b=5: all hashes; two symbolic register positions)'),
+         ('hyperloglog__mod.rs', 'c17_hll_add_hashed_b8', 'bounded(b=8: all hashes; two symbolic register positions)'),
+         ('hyperloglog__mod.rs', 'c17_hll_add_is_add_hashed', 'bounded(b=4: every hash value)')]
+HLL_MERGE = [('hyperloglog__mod.rs', 'c06_hll_merge_b4', 'bounded(b=4: all register contents of both sketches)')]
+HLL_TABLES = [('hyperloglog__mod.rs', 'c20_hll_tables_cover_all_precisions', 'complete: the 15 constant table rows are concrete')]
+
+TD15_QUICK = [('tdigest.rs', 'c15_td_endpoints_1', 'bounded(1 centroid; weights 1..4, grid j/4)'),
+              ('tdigest.rs', 'c15_td_endpoints_2', 'bounded(2 centroids; weights 1..4, grid j/4)'),
+              ('tdigest.rs', 'c15_td_empty', 'complete: empty digest, all q in [0,1], all non-NaN x'),
+              ('tdigest.rs', 'c15_td_merge_empty_backlog_noop', 'bounded(2 centroids)')]
+TD15_THOROUGH = [('tdigest.rs', 'c15_td_endpoints_3', 'bounded(3 centroids)'),
+                 ('tdigest.rs', 'c15_td_quantile_shape_1', 'bounded(1 centroid; q on j/32)'),
+                 ('tdigest.rs', 'c15_td_quantile_shape_2', 'bounded(2 centroids; q on j/32)'),
+                 ('tdigest.rs', 'c15_td_cdf_shape_1', 'bounded(1 centroid; x on j/8)'),
+                 ('tdigest.rs', 'c15_td_cdf_shape_2', 'bounded(2 centroids; x on j/8)'),
+                 ('tdigest.rs', 'c15_td_consistent_1', 'bounded(1 centroid, strict knots)'),
+                 ('tdigest.rs', 'c15_td_consistent_2', 'bounded(2 centroids, strict knots)')]
+TD16_QUICK = [('tdigest.rs', 'c16_td_insert_weighted_inner', 'complete: all finite x, all finite positive w, all non-NaN min/max (loop-free)'),
+              ('tdigest.rs', 'c16_td_zero_weight_noop', 'complete: all finite x (loop-free)'),
+              ('tdigest.rs', 'c15_td_empty', 'complete: empty digest')]
+TD16_THOROUGH = [('tdigest.rs', 'c16_td_merge_1_1', 'bounded(1 centroid + 1 backlog entry; adversarial scale function)')]
+TD19 = [('tdigest.rs', 'c19_td_clear_is_fresh', 'bounded(2 centroids + 1 backlog entry)')]
 
 PROPS = {}
 
-PROPS['C11'] = {
+PROPS['C01'] = {
+    'level': 'other',
+    'verus_units': ['hashiter', 'bloom', 'cuckoo'],
+    'kani': {'quick': BLOOM_K + CUCKOO_K[:1] + QF_QUICK + QF_UNION_QUICK, 'thorough': QF_THOROUGH + QF_UNION_THOROUGH},
+    'explanation': 'Bloom and Cuckoo: Verus proofs (unbounded in sizes, hashers, eviction outcomes) of exact whole-view contracts on the real insert/query/delete/union text + history lemmas (bits only grow; every class covers its live elements). Quotient filter: Kani one-step harnesses from EVERY canonical state of a small table (bounded in table size only, unbounded in history length). HashSet reference implementation: five delegations to std, not verified.',
+    'trusted_base': COMMON_TRUST + [HASH_TRUST, INTVEC_TRUST, FBS_TRUST, PANIC_ASSERTS,
+                                    'verus/prelude/rng.rs: rand::Rng as an arbitrary-value source (gen_range in [a,b), gen::<bool> arbitrary)',
+                                    'HashIterBuilder::setup_f contract assumed in Verus (iterator chain), HashIter no-overflow precondition m <= 2^32'],
+    'assumptions': ['BuildHasher is stable (same words -> same hash) and `==` on BuildHashers is structural', 'quotient filter part is a bounded stand-in (table size)', 'std::collections::HashSet behaves as documented (compat.rs is not verified)'],
+    'not_decided': ['HashSet compat implementation (delegations to std)', 'BloomFilter with m > 2^32 bits (u64 overflow of h1 + i*h2 + f is excluded by precondition)'],
+}
+
+PROPS['C02'] = {
+    'level': 'other',
+    'verus_units': ['hashiter', 'lemma_cms'],
+    'kani': {'quick': CMS_ADD_QUICK + CMS_MERGE[:1], 'thorough': CMS_ADD_THOROUGH + CMS_MERGE[1:]},
+    'explanation': 'Kani one-step contract harnesses on the real add_n/add/query_point/merge/clear from ARBITRARY table contents with a fully symbolic hasher (bounded in (w,d) and key universe, unbounded in history and counter values); Verus: hash iterator positions in range for all (m,k) and the history lemma (contracts => never underestimates, never exceeds total) for all histories.',
+    'trusted_base': COMMON_TRUST + [HASH_TRUST, 'lemma_cms.vrs states the add_n/merge contracts as spec predicates; their correspondence to the Kani assertions is by inspection (same sentences)'],
+    'assumptions': ['(w,d) grid {(1,1),(2,3),(2,2),(4,1),(1,4)} quick, +(3,2) thorough; 3-key universe', 'overflowing adds panic (checked_add().unwrap()) and are excluded by assume'],
+    'not_decided': ['(w,d) outside the grid: covered only through the unbounded HashIter range proof + generic code path'],
+}
+
+PROPS['C06'] = {
+    'level': 'other',
+    'verus_units': ['bloom', 'cuckoo', 'lemma_cms'],
+    'kani': {'quick': BLOOM_K[1:] + CMS_MERGE[:1] + HLL_MERGE + QF_UNION_QUICK, 'thorough': CMS_MERGE[1:] + QF_UNION_THOROUGH},
+    'explanation': 'merge contracts over the abstract view: Bloom union = bitwise or (Verus), Cuckoo union = class-wise sum of multisets with full rollback on Err (Verus, unbounded), CMS merge = cell-wise checked sum, HLL merge = register-wise max, Quotient union = canonical layout of A u B / Err iff it does not fit (Kani, bounded sizes). Commutativity/associativity/idempotence follow from or / + / max / set union on the views.',
+    'trusted_base': COMMON_TRUST + [HASH_TRUST, INTVEC_TRUST, FBS_TRUST, PANIC_ASSERTS],
+    'assumptions': ['"other operand unchanged" is the &Self borrow; the five types hold no interior mutability', 'CMS/HLL/Quotient parts are bounded stand-ins'],
+    'not_decided': [],
+}
+
+PROPS['C09'] = {
     'level': 'proof',
-    'verus_units': ['helpers'],
-    'lemmas': [],
+    'verus_units': ['lossy'],
+    'kani': {'quick': [], 'thorough': []},
+    'explanation': 'Verus proof on the real add(): the Lossy Counting invariant (f <= true <= f+delta, delta <= completed windows, untracked => true <= completed windows) is preserved for EVERY ghost true-count function; guarantee lemmas derive no-miss / no-intruder from it. Kani cannot execute std HashMap, so violations carry no-failing-input-found.',
+    'trusted_base': COMMON_TRUST + ['vstd HashMap / entry-API specifications (obeys_key_model::<T>() assumed)',
+                                    'R4: prune statement `drain().filter(P).collect()` replaced by a stub whose postcondition embeds the predicate text P captured from the source each run (std iterator semantics assumed)',
+                                    'query(): the lazy iterator chain is not verified; its filter predicate text is captured and used in the guarantee lemmas'],
+    'assumptions': ['f64: epsilon == 1/width resp. width == ceil(1/epsilon), and bound == max(0, ceil((s-epsilon)*n)) are taken in real arithmetic (not verified)',
+                    'floor(n/width) <= epsilon*n'],
+    'not_decided': ['the harmonic-number bound on the number of tracked elements (amortised over whole histories)', 'f64 computation of `bound` in query()'],
+}
+
+PROPS['C11'] = {
+    'level': 'other',
+    'verus_units': ['helpers', 'bloom', 'cuckoo', 'hll', 'reservoir'],
     'kani': {
         'quick': [
             ('helpers.rs', 'c11_all_zero_intvector_u64', 'complete in element_bits (1..=64); bounded(len<=4)'),
             ('helpers.rs', 'c11_all_zero_intvector_usize', 'complete in element_bits (1..=64); bounded(len<=4)'),
+            ('filters__quotientfilter.rs', 'c11_qf_table_sizes', 'bounded((bq,br)=(3,5))'),
+            ('countminsketch.rs', 'c02_cms_add_u8_2x3', 'bounded((w,d)=(2,3)): table.len()==w*d before and after add'),
         ],
         'thorough': [
             ('helpers.rs', 'intvector_stub_set_get', 'bounded(2 blocks): cross-check of the Verus IntVector stub against succinct'),
+            ('tdigest.rs', 'c16_td_merge_1_1', 'bounded(1 centroid + 1 backlog): merge empties the backlog and never creates centroids'),
         ],
     },
-    'explanation': 'allocation-size contracts: Verus (unbounded) on all_zero_intvector; Kani harnesses as counterexample engine',
+    'explanation': 'allocation-size contracts proved by Verus for all sizes (all_zero_intvector block count = ceil(bits*len/W); Bloom m bits; Cuckoo/HLL/Reservoir table sizes; growth bounded by representation invariants preserved by every verified operation; clear() keeps sizes); CMS / Quotient / TDigest-backlog sizes by bounded Kani harnesses.',
+    'trusted_base': COMMON_TRUST + [INTVEC_TRUST, FBS_TRUST, 'Vec capacity slack and allocator behaviour (std)'],
+    'assumptions': [],
+    'not_decided': ['TDigest centroid count O(delta) (same obstacle as C04)', 'LossyCounter O((1/eps) log(eps n)) entries (C09 not_decided)', 'CMSHeap <= k entries (see C10)'],
+}
+
+PROPS['C12'] = {
+    'level': 'other',
+    'verus_units': ['cuckoo'],
+    'kani': {'quick': CUCKOO_K[1:] + QF_QUICK[:4] + QF_UNION_QUICK, 'thorough': QF_THOROUGH + QF_UNION_THOROUGH},
+    'explanation': 'Cuckoo: Verus proof (unbounded, every eviction outcome) that insert Err => every slot and the counter are as before (undo log replayed backwards), union Err => table and counter restored; Quotient: Kani one-step harnesses from every canonical state of a small table: Err => all four arrays and the counter unchanged, other operand untouched.',
+    'trusted_base': COMMON_TRUST + [HASH_TRUST, INTVEC_TRUST, PANIC_ASSERTS,
+                                    'R2: `for (pos, data) in log.iter().rev().cloned()` rewritten to an index loop in the Verus unit; the real loop is checked against the reverse-order oracle by kani harness c12_cuckoo_restore_state_reverse_order (log <= 3)'],
+    'assumptions': ['quotient filter part is a bounded stand-in (table size)'],
+    'not_decided': [],
+}
+
+PROPS['C13'] = {
+    'level': 'other',
+    'verus_units': [],
+    'kani': {'quick': QF_QUICK + QF_QR, 'thorough': QF_THOROUGH},
+    'explanation': 'Kani one-step contract harnesses: for EVERY set S of fingerprint classes of a small table (state = canonical layout enc(S), encoder written independently of the implementation) and every fingerprint: scan answers membership in S, insert_internal returns Ok(false)/Err/Ok(true) exactly as stated and the resulting state EQUALS enc(S + {(q,r)}) on all slots. History length is unbounded (induction over one-step from arbitrary state); table size is bounded. calc_quotient_remainder: complete over all 64-bit hashes for four (bq,br).',
+    'trusted_base': COMMON_TRUST + ['the 40-line canonical-layout encoder in kani/harness/filters__quotientfilter.rs (independent oracle)'],
+    'assumptions': ['table sizes 2 slots (quick) and 4 slots (thorough) only'],
+    'not_decided': ['tables with more than 4 slots (an unbounded proof needs the canonical-layout invariant as an inductive Verus invariant over scan and the swap chain)'],
+}
+
+PROPS['C14'] = {
+    'level': 'proof',
+    'verus_units': ['cuckoo'],
+    'kani': {'quick': CUCKOO_K[:1], 'thorough': []},
+    'explanation': 'Verus proof, unbounded in bucketsize / n_buckets / l_fingerprint / number of kicks / RNG outcomes: fingerprint-class multiplicities cc(f, b) form the abstract multiset; insert adds exactly one copy of the class (eviction-chain invariant through all 500 kicks), reports Ok(true), len+1; delete true iff a copy is stored, removes exactly one; query iff >= 1; fewer than bucketsize elements => Ok (pigeonhole).',
+    'trusted_base': COMMON_TRUST + [HASH_TRUST, INTVEC_TRUST, PANIC_ASSERTS, 'verus/prelude/rng.rs'],
+    'assumptions': ['BuildHasher stable; 64-bit target'],
+    'not_decided': [],
+}
+
+PROPS['C15'] = {
+    'level': 'other',
+    'verus_units': [],
+    'kani': {'quick': TD15_QUICK, 'thorough': TD15_THOROUGH},
+    'explanation': 'bit-precise (IEEE f64) Kani harnesses on the real TDigestInner::quantile/cdf/interpolate from ARBITRARY well-formed centroid vectors of a bounded domain (<=2..3 centroids, weights 1..4, dyadic grid), including outermost weights > 1: endpoints, range, monotonicity, cdf(quantile(q)) = q, empty digest, repeated reads. Verus cannot interpret f64.',
     'trusted_base': COMMON_TRUST,
+    'assumptions': ['bounded value domain (grid) and centroid count', 'tolerance 1e-9 absolute on range/monotonicity (the property allows a few ulps of the data range)'],
+    'not_decided': ['digests with more than 3 centroids / off-grid values'],
+}
+
+PROPS['C16'] = {
+    'level': 'other',
+    'verus_units': [],
+    'kani': {'quick': TD16_QUICK, 'thorough': TD16_THOROUGH},
+    'explanation': 'insert_weighted: complete Kani harness over the full f64 domain (min/max exact, backlog entry exact, zero weight is a no-op); merge(): bounded harness with an ADVERSARIAL scale function (f/f_inv return arbitrary values on every call) showing count()/sum() conserved, means sorted, min/max untouched for every merge schedule.',
+    'trusted_base': COMMON_TRUST,
+    'assumptions': ['merge harness: small integer weights/sums so f64 addition is exact; <= 1 centroid + 1 backlog entry', '"to floating-point accumulation accuracy" for non-integer weights is assumed'],
+    'not_decided': ['merge with more centroids'],
+}
+
+PROPS['C17'] = {
+    'level': 'proof',
+    'verus_units': ['hll'],
+    'kani': {'quick': HLL_K[:2] + HLL_K[3:], 'thorough': HLL_K[2:3]},
+    'explanation': 'Verus proof for all b in 4..=18 and all 64-bit hashes: add_hashed updates exactly the register addressed by the low b bits to max(old, rank) with rank defined verbatim from the property (first set bit among the upper 64-b bits, 64-b+1 if none; leading_zeros characterised from vstd\'s recursive definition), all other registers unchanged; add == add_hashed(hash_one); constructors store their arguments; lemmas: update commutes and is idempotent => registers depend only on the set of hashes.',
+    'trusted_base': COMMON_TRUST + [HASH_TRUST, 'vstd specification of u64::leading_zeros (recursive definition) and Vec', 'assume_specification for core::cmp::max (prelude/std_extra.rs)', PANIC_ASSERTS],
     'assumptions': [],
     'not_decided': [],
+}
+
+PROPS['C18'] = {
+    'level': 'proof',
+    'verus_units': ['reservoir'],
+    'kani': {'quick': [], 'thorough': []},
+    'explanation': 'Verus proof for all k >= 1, all i, every RNG behaviour: add() pushes while i < k, afterwards leaves the reservoir or replaces exactly one slot j < k by the new item, len == min(i+1, k), i+1, no index out of range; history lemma: stored stream positions are pairwise distinct, all < n, prefix in order until the (k+1)-th add.',
+    'trusted_base': COMMON_TRUST + ['verus/prelude/rng.rs: gen_range(a..b) in [a, b) (panics on empty range: precondition)',
+                                    'R3: the three f64 statements computing the gap length g are replaced by an arbitrary value g'],
+    'assumptions': ['i + g does not overflow usize (g comes from ln() arithmetic neither verifier interprets)', 'k*4 <= usize::MAX (k >= 2^62 is excluded)', 'i < usize::MAX'],
+    'not_decided': ['overflow of self.i + g'],
+}
+
+PROPS['C19'] = {
+    'level': 'other',
+    'verus_units': ['bloom', 'cuckoo', 'hll', 'reservoir', 'lossy'],
+    'kani': {'quick': TD19 + CMS_EMPTY + CMS_MERGE[:1] + HLL_MERGE + [('filters__quotientfilter.rs', 'c19_qf_clear_is_fresh', 'bounded(4 slots, 16-bit remainders; arbitrary array contents)'),
+                                                                  ('filters__cuckoofilter.rs', 'c19_cuckoo_clear_is_fresh', 'bounded(2x2 table)')],
+             'thorough': []},
+    'explanation': 'clear() contracts: every field that later behaviour reads equals the fresh value (hidden counters included) -- Verus for Bloom, Cuckoo, HLL, Reservoir, LossyCounter (unbounded); Kani for CMS, TDigest (n_samples!), Quotient (bounded). is_empty exactness likewise. Equal states + deterministic code => equal continuations.',
+    'trusted_base': COMMON_TRUST + [INTVEC_TRUST, FBS_TRUST],
+    'assumptions': ['clone(): all nine types are derive(Clone) over owned data (Rc<T> in CMSHeap is shared but T is never mutated); std Clone contracts assumed, not verified'],
+    'not_decided': ['clone() independence is not under contract', 'CMSHeap clear()'],
+}
+
+PROPS['C20'] = {
+    'level': 'proof',
+    'verus_units': ['hll_serde', 'hll'],
+    'kani': {'quick': HLL_TABLES, 'thorough': []},
+    'explanation': 'Verus proof on the real visit_map body with serde MapAccess/Error as stub traits returning ARBITRARY values (every document shape): Ok(h) => 4 <= b <= 18 and registers.len() == 2^b; serialize passes exactly (registers, b, buildhasher) under their names; add_hashed index in range on such a sketch (unit hll); the constant tables cover b-4 in 0..15 (complete Kani harness).',
+    'trusted_base': COMMON_TRUST + ['serde traits replaced by contract-free stub traits (MapAccess::next_key/next_value return arbitrary values; de::Error constructors arbitrary); the nested visitor impl is lifted into a plain impl',
+                                    'round trip additionally assumes the data format round-trips Vec<u8>, usize and B (serde_json is not verified)'],
+    'assumptions': ['count() float path: panic-freedom beyond table indexing is not verified'],
+    'not_decided': ['visit_map stores the values read under the matching keys (types make a mix-up a compile error; not under contract)', 'count()/merge() panic-freedom on a deserialised sketch beyond index bounds'],
 }
 
 NOT_APPLICABLE = {
@@ -39,12 +249,43 @@ NOT_APPLICABLE = {
     'C05': 'probability over the sampler RNG (inclusion probability k/n): not a relation between pre- and post-state; validity of the sample is decided under C18 (DESIGN.md section 6)',
     'C07': 'false-positive frequencies over seeds/probe sets are statistical and the sizing formulas are log2/ln on f64; not expressible as a contract the installed verifiers can discharge (DESIGN.md section 6)',
     'C08': 'fraction of (seed, element) pairs exceeding epsilon*N is a statistical statement relying on row independence; no contract over one call states it (DESIGN.md section 6)',
+    'C10': 'CMSHeap: BTreeSet<TreeEntry> with inconsistent PartialEq (obj) / Ord ((n,obj)) and HashMap<Rc<T>,_> are outside what vstd specifications can model soundly, and Kani cannot execute std HashMap/BTreeSet in useful time; only the add-never-panics defect was repaired (demos/c10_cmsheap_debug_assert.rs). See DESIGN.md section 4/C10.',
 }
 
+def _mt(text, note, technique):
+    return {'text': text, 'note': note, 'technique': technique}
+
 MANIFEST_TEXT = {
-    'C11': {
-        'text': 'Allocation-size contracts: every table constructor and all_zero_intvector proved (Verus, unbounded in sizes) to allocate the documented number of blocks/cells; growth bounded by representation invariants preserved by every operation. Kani harnesses give replayable counterexamples.',
-        'note': 'Trusted: IntVector/FixedBitSet/Vec allocation behaviour as stated in the stub contracts (cross-checked by bounded Kani harnesses), Vec capacity slack, allocator. Not decided: TDigest centroid count O(delta), LossyCounter log bound.',
-        'technique': 'Verus contracts on extracted real functions + Kani contract harnesses',
-    },
+    'C01': _mt('Bloom + Cuckoo: unbounded Verus proofs of whole-view insert/query/delete/union contracts plus history lemmas; Quotient: bounded Kani one-step harnesses from every canonical state. Mixed, therefore "other".',
+               'Trusted: hashing model (stable BuildHasher), IntVector/FixedBitSet stubs, HashIter::setup_f contract; quotient part bounded by table size; HashSet compat unverified.',
+               'Verus contracts on extracted real functions (unbounded) + Kani contract harnesses (bounded stand-in for QuotientFilter)'),
+    'C02': _mt('Kani one-step contract harnesses on the real CMS code from arbitrary tables with a symbolic hasher (bounded (w,d)); Verus proves hash positions in range for all (m,k) and the history lemma.',
+               'Bounded in (w,d) and key universe; overflow panics excluded by assume; lemma/assertion correspondence by inspection.',
+               'Kani contract harnesses (bounded) + Verus history lemma'),
+    'C06': _mt('merge contracts over abstract views: Verus (Bloom, Cuckoo, unbounded) and Kani (CMS, HLL, Quotient, bounded sizes).',
+               'Trusted: stubs, hashing model; CMS/HLL/QF bounded.', 'Verus contracts + Kani contract harnesses (bounded)'),
+    'C09': _mt('Verus proof that the real LossyCounter::add preserves the Lossy Counting invariant for every ghost true-count function; guarantee lemmas on top.',
+               'Trusted: vstd HashMap/entry specs, std drain/filter/collect semantics (predicate text captured from source), f64 formulas for epsilon/bound taken in real arithmetic. Harmonic table bound not decided.',
+               'Verus contracts on the extracted real add() + guarantee lemmas'),
+    'C11': _mt('Allocation-size contracts: Verus (unbounded) for all_zero_intvector, Bloom, Cuckoo, HLL, Reservoir; bounded Kani for CMS, Quotient, TDigest backlog.',
+               'Trusted: IntVector/FixedBitSet/Vec allocation behaviour as stated in the stubs; TDigest centroid count, LossyCounter/CMSHeap growth not decided.',
+               'Verus contracts on extracted real functions + Kani contract harnesses'),
+    'C12': _mt('Cuckoo: unbounded Verus proof of rollback on every failing insert/union; Quotient: bounded Kani one-step harnesses.',
+               'Trusted: IntVector stub, hashing/RNG models; quotient part bounded by table size.', 'Verus contracts (cuckoo) + Kani contract harnesses (quotient, bounded)'),
+    'C13': _mt('Bounded: Kani one-step harnesses from every canonical state of 2- and 4-slot tables against an independent canonical-layout encoder; calc_quotient_remainder complete over all hashes.',
+               'Bounded in table size; encoder is the oracle.', 'Kani contract harnesses (bounded model checking of the real code)'),
+    'C14': _mt('Unbounded Verus proof that CuckooFilter is an exact multiset over fingerprint classes (eviction-chain invariant through all kicks).',
+               'Trusted: IntVector stub, hashing/RNG models, 64-bit usize.', 'Verus contracts on extracted real functions'),
+    'C15': _mt('Bounded: bit-precise Kani harnesses on the real quantile/cdf from arbitrary well-formed small digests.',
+               'Bounded value grid and centroid count; tolerance 1e-9.', 'Kani contract harnesses (bounded, IEEE f64 bit-precise)'),
+    'C16': _mt('insert_weighted complete over f64 (Kani, loop-free); merge() mass conservation bounded with adversarial scale function.',
+               'merge bounded to 1+1 centroids with exact small-integer arithmetic.', 'Kani contract harnesses (complete for insert, bounded for merge)'),
+    'C17': _mt('Unbounded Verus proof of the register update rule for all b and all hashes, with rank defined verbatim from the property; commutation lemma.',
+               'Trusted: vstd leading_zeros/Vec specs, cmp::max spec, hashing model.', 'Verus contracts on extracted real functions + Kani harnesses as counterexample engine'),
+    'C18': _mt('Unbounded Verus proof of the add() step contract for all k, i and RNG outcomes + history lemma (distinct positions, prefix).',
+               'Assumed: i+g no overflow (f64 gap length havoced), k*4 no overflow.', 'Verus contracts on extracted real functions'),
+    'C19': _mt('clear() == fresh on every field: Verus (5 structures, unbounded) + Kani (CMS, TDigest, Quotient; bounded). clone() not under contract.',
+               'Trusted: stubs; derive(Clone) semantics assumed; CMSHeap not covered.', 'Verus contracts + Kani contract harnesses'),
+    'C20': _mt('Verus proof that deserialisation yields Err or a sketch satisfying the constructor invariant for every document shape; serialize passes the three fields.',
+               'Trusted: serde traits as arbitrary-valued stubs; data format round trip assumed.', 'Verus contracts on the extracted real visit_map/serialize'),
 }
